@@ -129,6 +129,16 @@ def drive(verif, tag, cases, judge, nservers=8, cpu_limit=60.0, reuse_uri=False,
                     st2 = dict(paths)
                     st2.update(c["then"]["settings"])
                     s.settings = {"harper-ls": st2}
+                    if i % 2:
+                        # the server learns the new settings by pulling them (any edit makes it ask) before the editor's
+                        # announcement arrives: the user types a character and takes it back, then the notification comes
+                        for v, t in ((2, c["text"] + " "), (3, c["text"])):
+                            n1 = s.n_publishes(uri)
+                            s.notify("textDocument/didChange", {"textDocument": {"uri": uri, "version": v}, "contentChanges": [{"text": t}]})
+                            if await_publish(s, uri, n1, cpu_limit) != "ok":
+                                break
+                        with lock:
+                            stats["config_pulled_before_announced"] = stats.get("config_pulled_before_announced", 0) + 1
                     n1 = s.n_publishes(uri)
                     s.notify("workspace/didChangeConfiguration", {"settings": s.settings})
                     status2 = await_publish(s, uri, n1, cpu_limit)
@@ -717,3 +727,17 @@ def run_c12(tier, seed, scale, verif):
     return {"evaluations": stats["pairs"], "distinct_nontrivial": stats["astral_in_P"], "samples": [{"P": cases[0][0], "D": cases[0][1]}], "findings": list(merged.values()),
             "notes": ["harper-ls on P++D, P and D as plain-text documents: %(pairs)d pairs, %(diagnostics)d diagnostics of the whole compared, %(astral_in_P)d pairs with astral characters in P" % stats],
             "inconclusive": inconclusive if len(inconclusive) > 1 else [], "counters": {"ls_" + k: v for k, v in stats.items()}, "wall_s": time.time() - t0}
+
+
+def run_c06_settings(tier, seed, scale, verif):
+    """C06 under changing settings: the active dictionary includes the dialect; the same differential as run_c11 (documents
+    under random dialects and rule switches, then a settings change on the open document, announced first or pulled first),
+    reporting only differences in spelling diagnostics."""
+    r = run_c11(tier, seed + 606, scale * 0.5, verif)
+    out = []
+    for f in r["findings"]:
+        if "Did you mean" in f["sig"] or "spell" in f["sig"].lower():
+            out.append(dict(f, prop="C06", sig=f["sig"].replace("ls.", "ls.settings.", 1)))
+    r["findings"] = out
+    r["notes"] = ["spelling diagnostics only: " + n for n in r.get("notes", [])]
+    return r
